@@ -22,7 +22,10 @@ struct IoError { _p: u8 }
 // BufReader<R: Read + Seek>: opaque; its calls may return anything
 #[verifier::external_body]
 struct Input { _p: u8 }
+spec fn seek_start(to: SeekFrom) -> Option<u64> { match to { SeekFrom::Start(x) => Some(x), _ => None } }
 impl Input {
+    // where the reader stands (any value; reads move it arbitrarily)
+    uninterp spec fn at(&self) -> u64;
     #[verifier::external_body]
     fn read_exact(&mut self, buf: &mut [u8]) -> (r: Result<(), IoError>)
         ensures final(buf)@.len() == old(buf)@.len(),
@@ -30,14 +33,17 @@ impl Input {
     // ASSUMED: stream positions are file offsets (representable as i64)
     #[verifier::external_body]
     fn stream_position(&mut self) -> (r: Result<u64, IoError>)
-        ensures r is Ok ==> r->Ok_0 <= 0x7fff_ffff_ffff_ffff,
+        ensures r is Ok ==> r->Ok_0 <= 0x7fff_ffff_ffff_ffff && r->Ok_0 == old(self).at(), final(self).at() == old(self).at(),
     { unimplemented!() }
     #[verifier::external_body]
     fn seek(&mut self, to: SeekFrom) -> (r: Result<u64, IoError>)
+        ensures r is Ok && seek_start(to) is Some ==> final(self).at() == seek_start(to)->Some_0,
+            r is Err ==> final(self).at() == old(self).at(),
     { unimplemented!() }
     // `self.input.stream_position().unwrap_or(0)` (only ever an argument of an error constructor)
     #[verifier::external_body]
     fn position_or_zero(&mut self) -> (r: u64)
+        ensures final(self).at() == old(self).at(),
     { unimplemented!() }
 }
 #[verifier::external_body]
@@ -227,6 +233,9 @@ impl LogIterator {
 //@ ret r
 //@ post <<
         final(self).buffer@ == old(self).buffer@,
+        // padding is skipped only up to the next 2^20 boundary and never by more than HEADER_MAX_SIZE bytes
+        r is Ok ==> final(self).input.at() >= old(self).input.at() && final(self).input.at() - old(self).input.at() <= 19
+            && is_boundary(final(self).input.at() as int),
 //@ >>
 //@ end
 
